@@ -1382,6 +1382,13 @@ public:
                             break;
                         case ' ':
                         case '\t':
+                            if (curr_char == field_delimiter_)
+                            {
+                                // the record starts with an empty field, the delimiter is handled by the unquoted_string state
+                                begin_record(local_visitor, ec);
+                                state_ = csv_parse_state::unquoted_string;
+                                break;
+                            }
                             if (!trim_leading_)
                             {
                                 buffer_.push_back(static_cast<CharT>(curr_char));
